@@ -62,3 +62,42 @@ extern "C" int w_roundtrip(int i, int stat, double* lo, double* hi, int n, int* 
    return (int)s.basisStatusToVarStatus(d);
 }
 #endif
+
+#if defined(INST_loadRoundtripRow) || defined(INST_loadRoundtripCol)
+/* LEMMA (setBasis -> loadBasis/loadDesc -> getBasis at the level of one variable): the real conversion bodies composed
+ * with the status-repair statement chain that SPxBasisBase::loadDesc applies to every row / column (a verbatim REGION of
+ * the loop body of loadDesc, spxbasis.hpp). */
+struct HR : SPxSolverBase<double>
+{
+   void repair(int i)
+   {
+#include "loadDesc_repair.inc"
+   }
+};
+extern "C" int w_loadRoundtrip(int i, int stat, double* lo, double* hi, double* obj, int n, int* rowstat, int* colstat, int* mid0, int* mid1)
+{
+   VIN("i", i); VIN("stat", stat); VIN("n", n);
+   basis_stub_force_ctors();
+   HR s;
+#ifdef INST_loadRoundtripRow
+   basis_stub_init(s, lo, hi, n, 0, 0, 0, rowstat, colstat, 1);
+   s.objr.val = obj; s.objr.dimen = n;
+   DS d = s.varStatusToBasisStatusRow(i, (VS)stat);
+   s.thedesc.rowStatus(i) = d;
+#else
+   basis_stub_init(s, 0, 0, 0, lo, hi, n, rowstat, colstat, 1);
+   s.objc.val = obj; s.objc.dimen = n;
+   DS d = s.varStatusToBasisStatusCol(i, (VS)stat);
+   s.thedesc.colStatus(i) = d;
+#endif
+   *mid0 = (int)d;
+   s.repair(i);
+#ifdef INST_loadRoundtripRow
+   *mid1 = (int)s.thedesc.rowStatus(i);
+   return (int)s.getBasisRowStatus(i);
+#else
+   *mid1 = (int)s.thedesc.colStatus(i);
+   return (int)s.getBasisColStatus(i);
+#endif
+}
+#endif
